@@ -33,6 +33,8 @@ type c19Case struct {
 	Origin  string // "hub" | "minter" | "mixed" (even transfers from Minter, odd ones from the hub)
 	Chain   string // ethereum | bsc
 	NoKey   int    // index of a validator without a Minter address (-1: all registered)
+	Shift   bool   // the stake moves (by less than a signer-set refresh needs) after the Minter signer set was published
+	Tiny    int64  // >0: transfer amount in hub units (commission of a few units: shares round to zero)
 }
 
 func c19Cases(tier string) []c19Case {
@@ -55,7 +57,7 @@ func c19Cases(tier string) []c19Case {
 								if (sz+sp+fp+pr)%2 == 1 {
 									ch = "bsc"
 								}
-								out = append(out, c19Case{sz, sp, fp, pr, d, pw, or, ch, -1})
+								out = append(out, c19Case{sz, sp, fp, pr, d, pw, or, ch, -1, false, 0})
 							}
 						}
 					}
@@ -67,7 +69,26 @@ func c19Cases(tier string) []c19Case {
 	for _, pw := range [][]int64{{60, 30, 10}, {30, 60, 10}, {20, 30, 50}} {
 		for nk := 0; nk < 2; nk++ {
 			for _, d := range []uint64{6, 18} {
-				out = append(out, c19Case{2, 0, 1, 0, d, pw, "hub", "ethereum", nk})
+				out = append(out, c19Case{2, 0, 1, 0, d, pw, "hub", "ethereum", nk, false, 0})
+			}
+		}
+	}
+	// voting power that moved since the Minter signer set was last published (no new set: the shift is below 5%, and
+	// no BeginBlocker runs in between anyway): payouts follow the power at execution time
+	for _, pw := range [][]int64{{50, 30, 20}, {1000, 1000, 1000}, {10, 10}} {
+		for _, or := range []string{"hub", "minter"} {
+			for _, d := range []uint64{6, 18} {
+				for fp := 0; fp < 2; fp++ {
+					out = append(out, c19Case{2, 0, fp, 0, d, pw, or, "ethereum", -1, true, 0})
+				}
+			}
+		}
+	}
+	// commissions of a few units only
+	for _, amt := range []int64{100, 250, 1000} {
+		for _, pw := range [][]int64{{10, 10, 10}, {98, 1, 1}, {7}} {
+			for _, sz := range []int{1, 2} {
+				out = append(out, c19Case{sz, 0, 1, 0, 18, pw, "hub", "ethereum", -1, false, amt})
 			}
 		}
 	}
@@ -140,6 +161,9 @@ func c19Run(in *hub.Instance, cs c19Case) (res c19Res) {
 
 	// fees per transfer (hub units)
 	unit := pow10(15) // 0.001 hub: survives a 6-decimals conversion
+	if cs.Tiny > 0 {
+		unit = big.NewInt(1)
+	}
 	fees := make([]*big.Int, cs.Size)
 	for i := range fees {
 		switch cs.Spread {
@@ -158,6 +182,16 @@ func c19Run(in *hub.Instance, cs c19Case) (res c19Res) {
 		}
 	}
 	amount := new(big.Int).Mul(unit, big.NewInt(100000))
+	if cs.Tiny > 0 {
+		amount = big.NewInt(cs.Tiny)
+	}
+	if cs.Shift {
+		// a Minter signer set is published for the genesis stake
+		if p := in.NextBlock(5); p != nil {
+			res.outcome = "block-failure"
+			return
+		}
+	}
 	txhash := make([]string, cs.Size)
 	refundAddr := make([]string, cs.Size)
 	evNonce := uint64(0)
@@ -221,6 +255,19 @@ func c19Run(in *hub.Instance, cs c19Case) (res c19Res) {
 		feePaid = sdk.NewIntFromBigInt(new(big.Int).Mul(unit, big.NewInt(2)))
 	case 2:
 		feePaid = sdk.NewIntFromBigInt(pow10(40))
+	}
+	powers := append([]int64(nil), cs.Powers...)
+	if cs.Shift {
+		// 4% of the first validator's stake moves to the last one
+		d := powers[0] * 4 / 100
+		if d == 0 {
+			d = 1
+		}
+		powers[0] -= d
+		powers[len(powers)-1] += d
+		for i := range powers {
+			in.Staking.Vals[i].Power = powers[i]
+		}
 	}
 	payer := hub.HexAddr("relayer")
 	evNonce = in.Hub.GetLastObservedEventNonce(in.Ctx(), mhubtypes.ChainID(cs.Chain)) + 1
@@ -297,7 +344,7 @@ func c19Run(in *hub.Instance, cs c19Case) (res c19Res) {
 	// (3) commission payouts proportional to power, sum <= collected
 	sumCom := new(big.Int)
 	totStake := int64(0)
-	for i, p := range cs.Powers {
+	for i, p := range powers {
 		if i != cs.NoKey {
 			totStake += p // commission goes to the validators that have a Minter address
 		}
@@ -310,7 +357,7 @@ func c19Run(in *hub.Instance, cs c19Case) (res c19Res) {
 		}
 		sumCom.Add(sumCom, got)
 		// share of what is paid out in total (= collected, truncated)
-		want := new(big.Rat).Mul(collected, big.NewRat(cs.Powers[i], totStake))
+		want := new(big.Rat).Mul(collected, big.NewRat(powers[i], totStake))
 		if i == cs.NoKey {
 			want = new(big.Rat)
 		}
@@ -320,7 +367,7 @@ func c19Run(in *hub.Instance, cs c19Case) (res c19Res) {
 			diff.Neg(diff)
 		}
 		if diff.Cmp(tol) > 0 {
-			bad("commission_not_proportional_to_power", "batchTxExecuted", "validator %d (stake %d/%d) received %s, proportional share %s", i, cs.Powers[i], totStake, got, want.FloatString(2))
+			bad("commission_not_proportional_to_power", "batchTxExecuted", "validator %d (stake %d/%d) received %s, proportional share %s", i, powers[i], totStake, got, want.FloatString(2))
 		}
 		delete(coms, strings.ToLower(v.Eth.Hex()))
 	}
